@@ -5,6 +5,9 @@ import Hpl.Model.Build
 import Hpl.Model.Query
 import Hpl.Model.Printer
 import Hpl.Spec.Typing
+import Hpl.Spec.Scoping
+import Hpl.Model.Canon
+import Hpl.Spec.Canonical
 /-! Line-protocol driver: one S-expression request per line on stdin, one canonical answer per line on stdout. -/
 open Hpl
 open Hpl.Codec
@@ -103,6 +106,26 @@ def handle (req : Sexp) : Sexp :=
           okS [Sexp.ofBool (preds.all (fun e => wtPredB (.expr e))), Sexp.ofBool true,
                .str (match preds.findSome? firstIllTyped with | some n => n.print | none => "")]
         | none => errS "protocol" "welltyped"
+  | .list [.atom "sanity", sc, pt] =>
+    match decScope sc, decPattern pt with
+    | some sc, some pt => encM (fun _ => []) (sanityCheck sc pt)
+    | _, _ => errS "protocol" "sanity"
+  | .list [.atom "wellscoped", sc, pt] =>
+    match decScope sc, decPattern pt with
+    | some sc, some pt => okS [Sexp.ofBool (wellScopedB sc pt)]
+    | _, _ => errS "protocol" "wellscoped"
+  | .list [.atom "mkdisj", a, b] =>
+    match decEvent a, decEvent b with
+    | some a, some b => encM (fun e => [encEvent e]) (mkDisj a b)
+    | _, _ => errS "protocol" "mkdisj"
+  | .list [.atom "canon", p] =>
+    match decProperty p with
+    | some p => encM (fun ps => ps.map encProperty) (canonical p)
+    | none => errS "protocol" "canon"
+  | .list [.atom "canonspec", p] =>
+    match decProperty p with
+    | some p => okS ((canonicalSpec p).map encProperty)
+    | none => errS "protocol" "canonspec"
   | .list [.atom "ping"] => okS [.atom "pong"]
   | _ => errS "protocol" "unknown request"
 
